@@ -838,3 +838,46 @@ func alignStructure(c *core.Ctx) {
 		}
 	}
 }
+
+func init() {
+	doc := "syncBackendEndpointCookies gives every server of a cookie-affinity backend the cookie value the dynamic updater compares: the server name by default; with the pod-uid strategy the pod's UID when the endpoint references a pod that can be read, else the name. No cookie value is assigned without cookie affinity."
+	addRule("C02", &core.Rule{ID: "C02.cookie-values", Floor: 3, Run: cookieValues, Doc: doc})
+	addRule("C11", &core.Rule{ID: "C11.cookie-values", Floor: 3, Run: cookieValues, Doc: doc})
+}
+
+func cookieValues(c *core.Ctx) {
+	fn := c.Fn("converters/ingress", "converter.syncBackendEndpointCookies")
+	if fn == nil {
+		return
+	}
+	aff := has("Backend).CookieAffinity(")
+	n := 0
+	var uid, name int
+	for _, st := range fieldStores(fn, false, "haproxy/types.Endpoint", "CookieValue") {
+		n++
+		k := core.Key(st.Val)
+		if !guardedBy(st, aff, true) {
+			c.Violated("cookie values are assigned only with cookie affinity", at(c, st), "CookieValue is stored outside the CookieAffinity() branch")
+			continue
+		}
+		switch {
+		case strings.HasSuffix(k, ".Name"):
+			name++
+			// default strategy, or pod-uid fallback (pod unreadable)
+			okDefault := !guardedBy(st, has("EpCookieStrategy", " == "), true) || guardedBy(st, has("GetPod(", "#1 == nil)"), false)
+			which := "default strategy"
+			if guardedBy(st, has("GetPod(", "#1 == nil)"), false) {
+				which = "pod cannot be read"
+			}
+			c.Check(okDefault, "cookie value is the server name: "+which, at(c, st), "", "the name is stored on the pod-readable branch of the pod-uid strategy")
+		case strings.Contains(k, "fmt.Sprintf("):
+			uid++
+			l := sliceLeaves(c.Env, st.Val, 0)
+			ok := leavesContain(l, ".UID") && guardedBy(st, has("GetPod(", "#1 == nil)"), true) && guardedBy(st, has(`.TargetRef != "")`), true)
+			c.Check(ok, "pod-uid cookie is the UID of the referenced pod, when it can be read", at(c, st), "", "value "+leavesList(l)+" or not under `TargetRef != \"\"` and a successful GetPod")
+		default:
+			c.Violated("cookie value source", at(c, st), "CookieValue = "+k)
+		}
+	}
+	c.Check(n == 3 && uid == 1 && name == 2, "cookie value assignments", c.Pos(fn.Pos()), "", fmt.Sprintf("%d stores (%d uid, %d name); reviewed: default name, pod uid, fallback name", n, uid, name))
+}
